@@ -249,7 +249,7 @@ def items(tier, seed):
     # and the middle item serially for its determinism check, so those two slots get cheap items
     # (deepest first: in the thorough tier the unit families are one level shallower)
     heavy.sort(key=lambda it: (-it[5], it[1] != FADING, -(it[3] if it[1] == SLIDING else 0)))
-    extra = [("stat", seed), ("tie", seed), ("misc", seed)] + _real_items(tier, seed)
+    extra = [("stat", seed), ("tie", seed), ("misc", seed)] + _real_items(tier, seed) + _mmae_items(tier, seed)
     out = [light[0]] + heavy + extra + light[1:]
     mid = len(out) // 2
     if out[mid] in heavy:
@@ -1376,6 +1376,342 @@ def _run_real(res, item):
         res.cap(f"real runs of {kind} threshold {alpha} param {param}: no maneuver was declared at any burn; the reporting layer is not exercised there")
 
 
+# ------------------------------------------------------------------------------------------------ adaptive estimation
+# Histories in which the filter that carries the detector is REPLACED and handed back: a detection on a real UKF opens
+# multiple-model adaptive estimation (real adaptiveEstimationFactory + real initialize(): the model filters are built
+# by the real _createModels and share the target's detector), k observed steps run inside it, the real update()
+# decides that it has converged (real prune / gate / _resumeSequentialFiltering) and estimation continues on the
+# ``converged_filter``.  DOCUMENTED HISTORY asserted here: the detector classes document their statistic over "the
+# innovations given to the detector" (SlidingNis: the last w of them, FadingMemoryNis: all of them, faded by age); the
+# filters of ONE target share ONE detector by construction (the adaptive filter passes its own detector to every
+# model, and the converged filter continues "the" maneuver detection of the target), so the history of the target's
+# detector is every innovation evaluated for that target in evaluation order - the steps of the nominal filter, then
+# one entry per model filter per observed step inside adaptive estimation (models in list order), then the steps of
+# the converged filter.  Nothing processed is skipped and nothing is counted twice when the filter object changes.
+MMAE_DT = 60.0
+MMAE_T0 = 600.0
+MMAE_X0 = (7000.0, 0.0, 0.0, 0.0, 5.3, 5.4)
+MMAE_ESTIMATORS = ("smm", "gpb1")
+MMAE_MODELS = (2, 3)
+MMAE_PRE = (0, 2)  # nominal steps before the step whose detection opens adaptive estimation
+MMAE_K = (1, 2, 3)  # observed steps inside adaptive estimation (the first one runs inside initialize())
+MMAE_PRUNE_THRESHOLD = 1e-10
+MMAE_PRUNE_PERCENTAGE = 0.997
+# (dimension, covariance kind) of the steps, rotating with the step number and the trace
+MMAE_SHAPES = ((2, "S"), (4, "C"), (3, "S"), (2, "C"), (8, "S"), (4, "S"))
+# statistic of the nominal steps before the detection, as a fraction of the detector's own bound; the detection: 10 x
+MMAE_PRE_FRACTIONS = (0.3, 0.6)
+# statistic of the steps on the converged filter as a fraction of the detector's own bound given the documented
+# history (1 -+ 1e-6: a remembered / forgotten entry of the history flips the decision), rotating
+MMAE_POST_FRACTIONS = (0.5, 1.0 - EPS, 1.0 + EPS, 0.3, 0.0, 0.9, 1.0 + EPS, 1.0 - EPS, 0.7, 2.0)
+# NIS of the model filters inside adaptive estimation (absolute: the real convergence logic works on them).  Open
+# steps: SMM all models ~1 (equal likelihoods, no model reaches 0.997), GPB1 all ~40 (combined NIS above the 0.003
+# gate of <= 8 degrees of freedom, 23.6).  Closing step: SMM 'prune' = model 0 at 0.8, the others at 80 (weights
+# < 1e-10 are pruned), SMM 'gate' = the others at 24 (weight of model 0 >= 0.997, the others stay above 1e-10),
+# GPB1 = all at 0.8 (combined NIS passes the gate).
+MMAE_NIS_OPEN = {"smm": 1.0, "gpb1": 40.0}
+MMAE_NIS_CLOSE = {"prune": (0.8, 80.0), "gate": (0.8, 24.0), "gpb1": (0.8, 0.8)}
+
+_MMAE_QUEUE: list = []  # (innovation, covariance) in the order of the scripted filter updates to come
+_MMAE_CALLS: list = []  # the filters whose update consumed an entry, in that order
+_MMAE_HARNESS = {"n": None}
+
+
+class _MmaeUKF(UnscentedKalmanFilter):
+    """A real UKF (real predict, real no-observation update) whose update WITH observations keeps the last lines of
+    ``UnscentedKalmanFilter.update`` only - source, innovation, innov_cvr, nis, the real ``checkManeuverDetection`` -
+    on the next scripted innovation, and fills the attributes the adaptive filter combines (posterior = prior).  The
+    real ``_createModels`` / ``_resumeSequentialFiltering`` build the model filters and the converged filter from the
+    class of the nominal filter, so they are of this class as well."""
+
+    def update(self, observations):
+        if not observations:
+            UnscentedKalmanFilter.update(self, observations)
+            return
+        vec, cov = _MMAE_QUEUE.pop(0)
+        dim = len(vec)
+        self._flags = FilterFlag.NONE
+        self.source = EstimateSource.INTERNAL_OBSERVATION
+        self.est_x = np.array(self.pred_x, dtype=float)
+        self.est_p = np.array(self.pred_p, dtype=float)
+        self.is_angular = np.zeros(dim, dtype=bool)
+        self.r_matrix = np.zeros((dim, dim))
+        self.mean_pred_y = np.zeros(dim)
+        self.true_y = np.array(vec, dtype=float)
+        self.cross_cvr = np.zeros((self.x_dim, dim))
+        self.kalman_gain = np.zeros((self.x_dim, dim))
+        self.innov_cvr = cov
+        self.innovation = vec
+        self.nis = chiSquareQuadraticForm(vec, cov)
+        self.maneuver_detected = None  # sentinel
+        self.checkManeuverDetection()
+        _MMAE_CALLS.append(self)
+
+
+class _MmaeRow:
+    def __init__(self, jd):
+        self.julian_date = jd
+
+
+def _mmae_fake_fetch(database, sat_nums, jd_lb=None, jd_ub=None):  # noqa: ARG001
+    """Observation query of initialize(): the observation before the maneuver lies (n - 1) model intervals before the
+    detection, so that the real _calculateTimestep asks for n models."""
+    return [_MmaeRow(float(jd_ub) - (_MMAE_HARNESS["n"] - 1) * MMAE_DT / 86400.0)]
+
+
+def _mmae_nominal_states(self, *_a, **_k):
+    return np.zeros((self.num_models, self.x_dim))
+
+
+def _mmae_maneuvers(self, *_a, **_k):
+    return np.zeros((self.num_models, 3))
+
+
+def _mmae_hypothesis_states(self, nominal_states, maneuvers, maneuver_times):  # noqa: ARG001
+    return np.array([np.array(self.est_x, dtype=float) + 1e-3 * i for i in range(self.num_models)])
+
+
+def _mmae_install_seams():
+    """Database queries and Lambert targeting of initialize() are outside this property: replaced (as in C18)."""
+    import resonaate.estimation.adaptive.adaptive_filter as afm  # noqa: PLC0415
+
+    afm.fetchObservationsByJDInterval = _mmae_fake_fetch
+    afm.AdaptiveFilter._calculateNominalStates = _mmae_nominal_states  # noqa: SLF001
+    afm.AdaptiveFilter._generateHypothesisManeuvers = _mmae_maneuvers  # noqa: SLF001
+    afm.AdaptiveFilter._generateHypothesisStates = _mmae_hypothesis_states  # noqa: SLF001
+
+
+def _mmae_items(tier, seed):
+    """Per estimator: the standard detector (control: no memory) and every window / delta; quick: ONE threshold each
+    (rotating), thorough: all thresholds."""
+    return [("mmae", kind, alpha, param, est, seed) for est in MMAE_ESTIMATORS for kind, alpha, param in _configs()
+            if tier != "quick" or _config_in_unit_family(1 if est == "gpb1" else 0, kind, alpha, param)]
+
+
+def _mmae_post_steps(kind, param):
+    return (param if kind == SLIDING else 3) + 2
+
+
+class _MmaeTrace:
+    """One history nominal -> adaptive estimation -> converged filter on real objects, reference in lock step."""
+
+    def __init__(self, res, item, n, pre, k, close, gap, rot):
+        _, self.kind, self.alpha, self.param, self.est, seed = item
+        self.res, self.item = res, tuple(item)
+        self.n, self.pre, self.k, self.close, self.gap, self.rot = n, pre, k, close, gap, rot
+        self.phase = 0.37 * (int(seed) % 1000) + 0.13 * rot
+        self.syms = {}
+        self.rdet = _make_ref(self.kind, self.alpha, self.param)
+        self.fresh = _make_real(self.kind, self.alpha, self.param, via_config=False)
+        self.t = MMAE_T0
+        self.step_no = 0
+        self.calls = 0
+        self.where = "nominal"
+        jd = _jd(REPORT_START, self.t)
+        x0 = np.array(MMAE_X0)
+        self.obs = [Observation.fromMeasurement(jd, REPORT_TGT, x0, 300000, np.array(SENSOR_ECI[300000]), "Optical",
+                                                _measurement("O"), noisy=False)]
+
+    def sym(self):
+        dim, cov = MMAE_SHAPES[(self.step_no + self.rot) % len(MMAE_SHAPES)]
+        key = (dim, cov)
+        if key not in self.syms:
+            self.syms[key] = _Sym(len(self.syms), (dim, "Bbelow", cov), self.alpha, self.phase + 0.11 * len(self.syms))
+        return self.syms[key]
+
+    def mk(self, **kw):
+        c = {"kind": self.kind, "alpha": self.alpha, "param": self.param, "estimator": self.est, "models": self.n,
+             "nominal_steps_before": self.pre, "steps_inside": self.k, "closing": self.close, "unobserved_step_inside": self.gap,
+             "rotation": self.rot, "step": self.step_no, "detector_calls_so_far": self.calls, "filter": self.where}
+        c.update(kw)
+        return c
+
+    def judge(self, sub, got, det_metric, metric_r, dof_r, bound_r, nontrivial, check_metric=True):
+        res = self.res
+        expected = metric_r >= bound_r
+        if abs(metric_r - bound_r) <= EITHER * bound_r:
+            res.either_way += 1
+            ok, outcome = True, "either"
+        else:
+            ok, outcome = (got is not None and bool(got) == expected), "detected" if expected else "nominal"
+        res.case(
+            f"mmae/{sub}/decision",
+            self.mk(metric=metric_r, bound=bound_r, dof=dof_r) if (not ok or len(res.samples) < 2) else _EMPTY,
+            ok,
+            nontrivial=nontrivial,
+            signature=f"C17/{self.kind}/mmae/{self.est}/{sub}/decision/{'missed_detection' if expected else 'false_detection'}",
+            observed={"detected": None if got is None else bool(got), "metric": _f(det_metric)},
+            expected={"detected": expected, "metric": metric_r, "bound": bound_r, "dof": dof_r},
+            outcome=f"{sub}:{outcome}",
+            item=self.item,
+        )
+        if check_metric:
+            okm = _f(det_metric) is not None and abs(_f(det_metric) - metric_r) <= MTOL * max(abs(metric_r), 1e-300)
+            res.case(
+                f"mmae/{sub}/metric",
+                self.mk(metric=metric_r) if not okm else _EMPTY,
+                okm,
+                nontrivial=nontrivial,
+                signature=f"C17/{self.kind}/mmae/{self.est}/{sub}/metric",
+                observed=_f(det_metric),
+                expected=metric_r,
+                item=self.item,
+            )
+        res.observe(None if got is None else bool(got), _f(det_metric))
+        return expected
+
+    def state_case(self, sub, det, nontrivial):
+        """Differential oracle: the detector the active filter carries == a fresh detector given the documented history."""
+        got, want = _canon(det), _canon(self.fresh)
+        ok = got == want
+        self.res.case(
+            f"mmae/{sub}/detector_state",
+            self.mk() if (not ok or len(self.res.samples) < 2) else _EMPTY,
+            ok,
+            nontrivial=nontrivial,
+            signature=f"C17/{self.kind}/mmae/{self.est}/{sub}/detector_state",
+            observed=repr(got),
+            expected=repr(want),
+            item=self.item,
+        )
+
+    def script(self, target_nis=None, fraction=None, scale=1.0):
+        """Queue one innovation: statistic of the detector = fraction x its own bound given the documented history,
+        or single-step NIS = target_nis; returns the reference (metric, dof, bound) of that detector call."""
+        sym = self.sym()
+        if fraction is not None:
+            target_nis = max(0.0, self.rdet.needed_nis(fraction * self.rdet.bound_after(sym.dim)))
+        vec, nis = sym.make(target_nis * scale)
+        _MMAE_QUEUE.append((vec, sym.mat))
+        _real(self.fresh, vec, sym.mat)
+        self.calls += 1
+        return self.rdet.step(nis, sym.dim)
+
+    def sequential_step(self, flt, sub, fraction, nontrivial):
+        """predict + observed update of a sequential filter (nominal or converged)."""
+        self.step_no += 1
+        self.t += MMAE_DT
+        _real(flt.predict, ScenarioTime(self.t))
+        metric_r, dof_r, bound_r = self.script(fraction=fraction)
+        _real(flt.update, self.obs)
+        self.res.transitions += 1
+        det = flt.maneuver_detection
+        expected = self.judge(sub, flt.maneuver_detected, det.metric, metric_r, dof_r, bound_r, nontrivial)
+        self.state_case(sub, det, nontrivial)
+        return expected
+
+    def unobserved_step(self, flt, sub):
+        self.step_no += 1
+        self.t += MMAE_DT
+        _real(flt.predict, ScenarioTime(self.t))
+        _real(flt.update, [])
+        self.res.transitions += 1
+        self.state_case(sub + "_unobserved", flt.maneuver_detection, self.kind != STANDARD)
+
+    def model_nis(self, j, closing):
+        if not closing:
+            return MMAE_NIS_OPEN[self.est] * (1.0 + 0.02 * j)
+        first, others = MMAE_NIS_CLOSE[self.close]
+        return first if j == 0 else others * (1.0 + 0.02 * j)
+
+    def inside_step(self, closing, opener=None):
+        """One observed step inside adaptive estimation: every model filter evaluates its innovation with the shared
+        detector.  ``opener`` = callable that runs factory + initialize (first step), else predict + update."""
+        self.step_no += 1 if opener is None else 0  # the opening step is the step of the detection
+        refs = [self.script(target_nis=self.model_nis(j, closing)) for j in range(self.n)]
+        del _MMAE_CALLS[:]
+        if opener is None:
+            self.t += MMAE_DT
+            _real(self.af.predict, ScenarioTime(self.t))
+            _real(self.af.update, self.obs)
+        else:
+            opener()
+        self.res.transitions += 1
+        if _MMAE_QUEUE or len(_MMAE_CALLS) != self.n:
+            raise RuntimeError(f"harness: {len(_MMAE_CALLS)} model updates for {self.n} scripted innovations")
+        nontriv = self.kind != STANDARD
+        for j, (model, (metric_r, dof_r, bound_r)) in enumerate(zip(_MMAE_CALLS, refs)):
+            last = j == self.n - 1
+            # the metric after a call is observable for the last model (detector.metric) and for declared maneuvers
+            metric_got = model.maneuver_detection.metric if last else model.maneuver_metric if model.maneuver_detected else None
+            self.where = f"model {j}"
+            self.judge("inside", model.maneuver_detected, metric_got, metric_r, dof_r, bound_r, nontriv,
+                       check_metric=metric_got is not None)
+        self.where = "adaptive"
+        self.state_case("inside", _MMAE_CALLS[-1].maneuver_detection, nontriv)
+        converged = self.af.converged_filter is not None
+        if converged != closing:
+            raise RuntimeError(f"harness: adaptive estimation {'closed' if converged else 'still open'} at step {self.step_no} "
+                               f"({self.est}, {self.close}, weights {getattr(self.af, 'model_weights', None)})")
+
+    def run(self):
+        from resonaate.estimation import adaptiveEstimationFactory  # noqa: PLC0415
+        from resonaate.physics.time.stardate import JulianDate  # noqa: PLC0415
+        from resonaate.scenario.config.estimation_config import (  # noqa: PLC0415
+            GPB1AdaptiveEstimationConfig,
+            SMMAdaptiveEstimationConfig,
+        )
+
+        del _MMAE_QUEUE[:]
+        _MMAE_HARNESS["n"] = self.n
+        det = _make_real(self.kind, self.alpha, self.param, via_config=True)
+        nominal = _MmaeUKF(REPORT_TGT, ScenarioTime(self.t), np.array(MMAE_X0), 1e-4 * np.eye(6), TwoBody(), 1e-12 * np.eye(6),
+                           maneuver_detection=det, initial_orbit_determination=False, adaptive_estimation=True)
+        for j in range(self.pre):
+            if self.sequential_step(nominal, "before", MMAE_PRE_FRACTIONS[j], False):
+                raise RuntimeError("harness: detection before the scripted maneuver")
+        if not self.sequential_step(nominal, "before", 10.0, False):
+            raise RuntimeError("harness: the scripted maneuver is not a detection by the reference")
+        if not (nominal.maneuver_detected and FilterFlag.ADAPTIVE_ESTIMATION_START in nominal.flags):
+            return  # reported by mmae/before/decision
+        cfg_cls = SMMAdaptiveEstimationConfig if self.est == "smm" else GPB1AdaptiveEstimationConfig
+        cfg = cfg_cls(model_interval=int(MMAE_DT), observation_window=1, prune_threshold=MMAE_PRUNE_THRESHOLD,
+                      prune_percentage=MMAE_PRUNE_PERCENTAGE)
+
+        def opener():
+            # what EstimateAgent._beginAdaptiveEstimation does
+            self.af = _real(adaptiveEstimationFactory, cfg, nominal, ScenarioTime(MMAE_DT))
+            if not _real(self.af.initialize, self.obs, JulianDate(_jd(REPORT_START, 0.0))):
+                raise RuntimeError("harness: initialize() did not start adaptive estimation")
+
+        self.where = "adaptive"
+        self.inside_step(self.k == 1, opener)
+        for j in range(2, self.k + 1):
+            if self.gap and j == 2:
+                self.unobserved_step(self.af, "inside")
+            self.inside_step(j == self.k)
+        # hand-back: what EstimateAgent._handleMMAE installs as the target's filter
+        flt = self.af.converged_filter
+        self.where = "converged"
+        memory = self.kind != STANDARD
+        self.state_case("handback", flt.maneuver_detection, memory)
+        okc = type(flt.maneuver_detection).__name__ == METHOD_NAME[self.kind] and flt.maneuver_detection.threshold == self.alpha
+        self.res.case("mmae/handback/detector_config", self.mk() if not okc else _EMPTY, okc,
+                      signature=f"C17/{self.kind}/mmae/{self.est}/handback/detector_config",
+                      observed=repr((type(flt.maneuver_detection).__name__, getattr(flt.maneuver_detection, "threshold", None))),
+                      expected=repr((METHOD_NAME[self.kind], self.alpha)), item=self.item)
+        post = _mmae_post_steps(self.kind, self.param)
+        for j in range(post):
+            if j == 2 and not self.gap:
+                self.unobserved_step(flt, "after_handback")
+            self.sequential_step(flt, "after_handback", MMAE_POST_FRACTIONS[(j + self.rot) % len(MMAE_POST_FRACTIONS)], memory)
+        self.res.traces += 1
+        self.res.states += self.calls
+
+
+def _run_mmae(res, item):
+    _fresh_db()
+    _mmae_install_seams()
+    est = item[4]
+    rot = 0
+    for n in MMAE_MODELS:
+        for pre in MMAE_PRE:
+            for k in MMAE_K:
+                close = "gpb1" if est == "gpb1" else ("prune", "gate")[(rot + n) % 2]
+                _MmaeTrace(res, item, n, pre, k, close, rot % 2 == 1, rot).run()
+                rot += 1
+
+
 def run_item(item):
     res = fw.Result()
     item = tuple(item)
@@ -1391,6 +1727,8 @@ def run_item(item):
             _run_misc(res, item)
         elif kind == "real":
             _run_real(res, item)
+        elif kind == "mmae":
+            _run_mmae(res, item)
         else:
             raise ValueError(kind)
     except _RealCallError as exc:
